@@ -386,7 +386,8 @@ def agent_run(case, fault):
             'probe_new': n_all >= n_same + 1 and fresh.get('ret') == 13 and bool(fresh.get('kept')),
             'escaped': rep['escaped'] + rep2['escaped'][len(rep['escaped']):], 'effects': effects,
             'count': info.get('count', rep['count']), 'call_regions': info.get('regions', []),
-            'entries': rep['entries'], 'fault': rep, 'snapshots_sent': sent_ok}
+            'entries': rep['entries'], 'fault': rep, 'snapshots_sent': sent_ok,
+            'none_returns': rep['none_returns'] + rep2['none_returns']}
 
 
 def reference(case):
@@ -435,7 +436,8 @@ def run_impl(case):
     else:
         r = ref
     rep = r['fault']
-    obs.update({k: r[k] for k in ('host', 'trace_kept', 'probe_same', 'probe_new', 'escaped', 'effects', 'entries')})
+    obs.update({k: r[k] for k in ('host', 'trace_kept', 'probe_same', 'probe_new', 'escaped', 'effects', 'entries',
+                                  'none_returns')})
     obs['fired'] = rep['fired']
     obs['region'] = rep['region']
     obs['catcher'] = rep['catcher']
@@ -458,6 +460,9 @@ def oracle(case, obs):
                  f'{json.dumps(obs["baseline"])[:300]} without')
     if not obs['trace_kept']:
         v.append('sys.gettrace() of the traced thread is no longer the handler')
+    if obs['none_returns']:
+        v.append(f'trace_call returned None {obs["none_returns"]} times although tracepoints are installed: CPython stops '
+                 'line tracing of that frame')
     if not obs['probe_same']:
         v.append('a later tracepoint of the same thread no longer fires (tracing silently off for the thread)')
     if not obs['probe_new']:
